@@ -321,15 +321,23 @@ pub fn normalize_grid(all: bool, part: u64) -> Vec<String> {
                 if a == b || !tokens(b).iter().any(|t| ta.contains(t)) {
                     continue;
                 }
+                // quick: A restated, 1/8 of the separator x kind combinations (rotating); thorough: A or
+                // B restated, all 162 combinations
                 for (zi, z) in [a, b].into_iter().enumerate() {
-                    for (s1, sep1) in seps.iter().enumerate() {
-                        for (s2, sep2) in seps.iter().enumerate() {
-                            triple += 1;
-                            if !all && triple % 6 != part % 6 {
-                                continue;
+                    if !all && zi == 1 {
+                        continue;
+                    }
+                    for sep1 in seps {
+                        for sep2 in seps {
+                            for k1 in kinds {
+                                for k2 in kinds {
+                                    triple += 1;
+                                    if !all && (k2 == " off" || triple % 8 != part % 8) {
+                                        continue;
+                                    }
+                                    v.push(format!("{a}{sep1}{b}{k1}{sep2}{z}{k2}"));
+                                }
                             }
-                            let (k1, k2) = (kinds[(s1 + zi) % 3], kinds[(s2 + s1 * 2 + zi + (triple % 3) as usize) % 3]);
-                            v.push(format!("{a}{sep1}{b}{k1}{sep2}{z}{k2}"));
                         }
                     }
                 }
